@@ -39,7 +39,7 @@ EmptyD == [part |-> [n \in Names |-> Nil], full |-> [n \in Names |-> Nil], waitf
 EmptyM == [cache |-> [n \in Names |-> Unknown], wait |-> <<>>, timers |-> <<>>, ready |-> TRUE]
 EmptyH == [arrive |-> [nv \in NV |-> 0], ans |-> NoAns, passed |-> {}, cleaned |-> {}, treated |-> {},
            stale |-> {}, taint |-> {}, redo |-> {}, shadow |-> {}, seen |-> {}, s15 |-> {},
-           crash |-> 0, clean |-> 0, idle |-> TRUE]
+           crash |-> 0, clean |-> 0, idle |-> TRUE, pcache |-> EmptyM.cache]
 NoEv == [op |-> "none"]
 
 ObsInit ==
@@ -53,7 +53,7 @@ Count(sq, x) == Cardinality({ i \in DOMAIN sq : sq[i] = x })
 HistAfter(H, P, M, e) ==
   LET c == e.cmd
       D == DurOf(e.post)
-      isRecv == c.op = "recv"
+      isRecv == c.op \in {"recv", "prepare"}
       n == IF isRecv \/ c.op \in {"status", "received"} THEN c.n ELSE ""
       crashed == e.crashed \/ c.op = "restart"
       cst == IF isRecv THEN M.cache[c.n].st ELSE ""
@@ -62,9 +62,9 @@ HistAfter(H, P, M, e) ==
                        THEN NoCmp ELSE P.cmp[c.n])
                  ELSE NoCmp
       setStale == isRecv /\ P.part[c.n] = Nil /\ cmpPrep # NoCmp
-      clear == isRecv /\ e.res = "ok" /\ (cmpPrep = NoCmp \/ cmpPrep.v # c.v)
+      clear == c.op = "recv" /\ e.res = "ok" /\ (cmpPrep = NoCmp \/ cmpPrep.v # c.v)
       stale1 == IF clear THEN H.stale \ {c.n} ELSE IF setStale THEN H.stale \cup {c.n} ELSE H.stale
-      s151 == IF isRecv /\ cmpPrep # NoCmp /\ cmpPrep.v # c.v /\ (P.waitf[c.n] # Nil \/ P.full[c.n] # Nil)
+      s151 == IF c.op = "recv" /\ cmpPrep # NoCmp /\ cmpPrep.v # c.v /\ (P.waitf[c.n] # Nil \/ P.full[c.n] # Nil)
               THEN H.s15 \cup {c.n} ELSE H.s15
       ansv == IF c.op = "status" THEN e.mem.cache[c.n].v ELSE IF c.op \in {"recv", "received"} THEN c.v ELSE 0
   IN [arrive |-> [nv \in NV |-> H.arrive[nv] + Count(e.arrived, <<nv[1], nv[2]>>)],
@@ -87,7 +87,8 @@ HistAfter(H, P, M, e) ==
       seen |-> IF isRecv THEN H.seen \cup {<<c.n, c.v>>} ELSE H.seen,
       crash |-> H.crash + (IF crashed THEN 1 ELSE 0),
       clean |-> H.clean + (IF c.op = "clean" THEN 1 ELSE 0),
-      idle |-> ~e.crashed]
+      idle |-> ~e.crashed,
+      pcache |-> M.cache]                  \* what the receiver remembered before this event
 
 ObsNext ==
   /\ l <= Len(Trace)
@@ -113,6 +114,7 @@ Obs_C05_LogOnce == F_C05_LogOnce(oD, oH)
 Obs_C04_Order == F_C04_Order(oD, oH)
 Obs_C06_NoStrand == F_C06_NoStrand(oD, oH)
 Obs_C06_NoLoss == F_C06_NoLoss(oD, oH)
+Obs_C06_LoggedDelivered == F_C06_LoggedDelivered(oD, oH)
 Obs_C09_Sound == F_C09_Sound(oD, oH)
 Obs_C09_Complete == F_C09_Complete(oD, oH)
 Obs_C20_OnlyDelivered == F_C20_OnlyDelivered(oD, oH)
@@ -153,7 +155,7 @@ Obs_C05_DupAnswered ==
          v == oE.cmd.v
      IN (LoggedD(oP, n, v) /\ oP.final[Target(n, Ren[n])] = Good(n, v)
          /\ oP.part[n] = Nil /\ oP.cmp[n] = NoCmp /\ oP.full[n] = Nil /\ oP.waitf[n] = Nil
-         /\ oM.cache[n].st \in {"finalized", "logged"} /\ oM.cache[n].v = v)
+         /\ oH.pcache[n].st \in {"finalized", "logged"} /\ oH.pcache[n].v = v)
         => (oE.res = "ok" /\ oE.arrived = <<>> /\ oD.rlog = oP.rlog /\ oD.final = oP.final
             /\ oD.full[n] = Nil /\ oD.waitf[n] = Nil /\ oD.part[n] = Nil /\ oD.cmp[n] = NoCmp)
 
